@@ -1,6 +1,7 @@
 package main
 
 import (
+	"go/token"
 	"fmt"
 	"go/types"
 	"os"
@@ -61,6 +62,10 @@ var c16Decoders = []string{
 	"pkg/pgsql/server.(*messageReader).ReadRawMessage",
 	"pkg/pgsql/server.parseProtocolVersion",
 	"pkg/database.(*db).resolveValue",
+	"pkg/database.(*db).serializeTx",
+	// stream chunks
+	"pkg/stream.(*msgReceiver).Read",
+	"pkg/stream.(*msgReceiver).ReadFully",
 }
 
 // callee contracts: on success, 0 <= result[ret] <= len(arg)
@@ -480,4 +485,146 @@ func c16RecvLoops(c *Ctx, pfx string) {
 			c.undecided(r, must, "the chunk-stream receiver loop was not found (confirmed by hand on the pinned tree)")
 		}
 	}
+}
+
+// ---- allocation bounded ---------------------------------------------------------------------------------------
+
+// isWideDecode: a call that produces an integer of 32 bits or more out of untrusted bytes
+func isWideDecode(v ssa.Value) bool {
+	call, ok := v.(*ssa.Call)
+	if !ok {
+		return false
+	}
+	n := calleeName(&call.Call)
+	switch n {
+	case "encoding/binary.(bigEndian).Uint32", "encoding/binary.(bigEndian).Uint64", "encoding/binary.(littleEndian).Uint32", "encoding/binary.(littleEndian).Uint64",
+		"embedded/appendable.(*Reader).ReadUint32", "embedded/appendable.(*Reader).ReadUint64":
+		return true
+	}
+	return false
+}
+
+func isNarrowDecode(v ssa.Value) bool {
+	call, ok := v.(*ssa.Call)
+	if !ok {
+		return false
+	}
+	n := calleeName(&call.Call)
+	return strings.HasSuffix(n, "ndian).Uint16") || n == "embedded/appendable.(*Reader).ReadUint16"
+}
+
+// allocSites lists, for every function of the loaded repository packages, the make([]T, n) whose n derives from a
+// wide decoded integer, and whether an ordering comparison on a value derived from the same decode dominates it.
+func (c *Ctx) allocSites(visit func(f *ssa.Function, mk *ssa.MakeSlice, ord int, bounded bool, how string)) {
+	for _, f := range c.allFns {
+		if len(f.Blocks) == 0 {
+			continue
+		}
+		ord := 0
+		for _, b := range f.Blocks {
+			for _, in := range b.Instrs {
+				mk, ok := in.(*ssa.MakeSlice)
+				if !ok {
+					continue
+				}
+				var src ssa.Value
+				if !dependsOn(mk.Len, func(v ssa.Value) bool {
+					if isWideDecode(v) {
+						src = v
+						return true
+					}
+					return false
+				}) {
+					continue
+				}
+				bounded, how := false, ""
+				for _, bb := range f.Blocks {
+					if len(bb.Instrs) == 0 {
+						continue
+					}
+					ifi, ok := bb.Instrs[len(bb.Instrs)-1].(*ssa.If)
+					if !ok {
+						continue
+					}
+					for _, leaf := range boolLeaves(ifi.Cond) {
+						bo, ok := leaf.(*ssa.BinOp)
+						if !ok || (bo.Op != token.LSS && bo.Op != token.GTR && bo.Op != token.LEQ && bo.Op != token.GEQ) {
+							continue
+						}
+						onSrc := func(v ssa.Value) bool { return v == src }
+						if !dependsOn(bo.X, onSrc) && !dependsOn(bo.Y, onSrc) {
+							continue
+						}
+						for si := range bb.Succs {
+							if edgeDominates(bb, si, mk.Block()) {
+								bounded, how = true, c.pos(ifi.Pos())+": "+desc(bo)
+							}
+						}
+					}
+				}
+				visit(f, mk, ord, bounded, how)
+				ord++
+			}
+		}
+	}
+}
+
+func init() {
+	register("DBGALLOC", &propDef{patterns: props0("C16"), run: func(c *Ctx) {
+		c.allocSites(func(f *ssa.Function, mk *ssa.MakeSlice, ord int, bounded bool, how string) {
+			fmt.Printf("ALLOC %s#%d %s bounded=%v %s | len=%s\n", fnName(f), ord, c.pos(mk.Pos()), bounded, how, desc(mk.Len))
+		})
+	}})
+}
+
+// signConvSites: conversions of a decoded unsigned 64-bit integer to a signed integer (the result is negative when
+// the top bit is set) and whether an ordering comparison on the decoded value or on the converted one dominates
+// any use as a length/index.
+func (c *Ctx) signConvSites(visit func(f *ssa.Function, cv *ssa.Convert, ord int, bounded bool, how string)) {
+	for _, f := range c.allFns {
+		ord := 0
+		for _, b := range f.Blocks {
+			for _, in := range b.Instrs {
+				cv, ok := in.(*ssa.Convert)
+				if !ok || !isWideDecode(cv.X) {
+					continue
+				}
+				from, ok1 := cv.X.Type().Underlying().(*types.Basic)
+				to, ok2 := cv.Type().Underlying().(*types.Basic)
+				if !ok1 || !ok2 || from.Kind() != types.Uint64 || to.Kind() != types.Int {
+					continue
+				}
+				bounded, how := false, ""
+				for _, bb := range f.Blocks {
+					if len(bb.Instrs) == 0 {
+						continue
+					}
+					ifi, ok := bb.Instrs[len(bb.Instrs)-1].(*ssa.If)
+					if !ok {
+						continue
+					}
+					for _, leaf := range boolLeaves(ifi.Cond) {
+						bo, ok := leaf.(*ssa.BinOp)
+						if !ok || (bo.Op != token.LSS && bo.Op != token.GTR && bo.Op != token.LEQ && bo.Op != token.GEQ) {
+							continue
+						}
+						on := func(v ssa.Value) bool { return v == cv.X }
+						if dependsOn(bo.X, on) || dependsOn(bo.Y, on) {
+							bounded, how = true, c.pos(ifi.Pos())+": "+desc(bo)
+						}
+					}
+				}
+				visit(f, cv, ord, bounded, how)
+				ord++
+			}
+		}
+	}
+}
+
+func init() {
+	register("DBGCONV", &propDef{patterns: props0("C16"), run: func(c *Ctx) {
+		c.signConvSites(func(f *ssa.Function, cv *ssa.Convert, ord int, bounded bool, how string) {
+			fmt.Printf("CONV %s#%d %s bounded=%v %s\n", fnName(f), ord, c.pos(cv.Pos()), bounded, how)
+		})
+	}})
 }
